@@ -9,13 +9,13 @@ Open Scope Z_scope.
 
 Lemma run_loop_pick_nofuel cs rank (T : term_ok cs rank) endt pick (PO : pick_ok cs pick) fuel :
   forall st acc o st' acc',
-  Inv cs st -> TB cs endt st ->
+  Inv cs st -> PInv cs st -> TB cs endt st ->
   (any_running st O cs endt = true \/ forall c, is_time cs c = true -> s_time st c <= maxstart cs) ->
   (Z.to_nat (Phi cs endt st) < fuel)%nat ->
   run_loop_pick pick fuel cs endt st acc = (o, st', acc') -> o <> OFuel.
 Proof.
   pose proof (to_wf cs rank T) as W. pose proof (Smax_pos cs) as Sp.
-  induction fuel as [|fuel IH]; intros st acc o st' acc' Hinv Htb Hx Hf H; [lia|].
+  induction fuel as [|fuel IH]; intros st acc o st' acc' Hinv HP Htb Hx Hf H; [lia|].
   cbn [run_loop_pick] in H.
   pose proof (PO st) as PS.
   destruct (pick st) as [c0|] eqn:PM; [|inversion H; discriminate].
@@ -35,7 +35,7 @@ Proof.
       { unfold is_time, getc. rewrite (nth_error_nth _ _ _ Hj). destruct Hxk as [s0 [st0 [ip Hxk]]]. now rewrite Hxk. }
       pose proof (Min j Lj Tj) as Hle. lia. }
     assert (Hu : s_time st u <= Z.max (maxstart cs) endt + Z.of_nat (rec_fuel cs) * Smax cs).
-    { eapply (update_rec_time_bound cs rank T st acc Hinv); [exact U| |intros _; exact HX0|intros E; congruence].
+    { eapply (update_rec_time_bound cs rank T st acc Hinv HP); [exact U| |intros _; exact HX0|intros E; congruence].
       pose proof (maxstart_ge_t0 cs). lia. }
     assert (Hnew : s_time st1 u <= Bound cs endt).
     { rewrite T1. pose proof (next_time_le cs st u Tu). pose proof (S_of_le_Smax cs u). unfold Bound. nia. }
@@ -48,7 +48,7 @@ Proof.
       - unfold term. rewrite Tu, T1. pose proof (next_time_gt cs W st u Tu). lia.
       - intros x Hxu. unfold term. rewrite T2 by exact Hxu. reflexivity. }
     pose proof (Phi_nonneg cs endt st1 Htb1). pose proof (Phi_nonneg cs endt st Htb).
-    eapply IH; [exact I1|exact Htb1|left; exact AR1| |exact H].
+    eapply IH; [exact I1|exact (do_update_PInv cs W (to_simple cs rank T) st u acc st1 acc1 None Tu HP Du)|exact Htb1|left; exact AR1| |exact H].
     apply Nat.succ_lt_mono in Hf. lia.
   - exfalso. destruct (update_rec_props (rec_fuel cs) cs st acc c0 [] 0) as [HA _].
     destruct (HA U) as [Hf' _]. congruence.
@@ -65,21 +65,15 @@ Lemma run_prio_terminates cs rank endt prio :
 Proof.
   intros T Hp fuel o st acc Hf H. unfold run_prio in H. unfold enough_fuel in Hf.
   eapply (run_loop_pick_nofuel cs rank T endt _ (pick_prio_ok cs prio Hp) fuel);
-    [apply init_state_Inv|apply init_TB| |lia|exact H].
+    [apply init_state_Inv|apply init_state_PInv; exact (to_simple cs rank T)|apply init_TB| |lia|exact H].
   right. intros c Tc. rewrite (init_time_is_start cs c Tc). apply maxstart_ge; exact Tc.
 Qed.
 
-Lemma simple_is_stateless cs rank : term_ok cs rank -> stateless cs.
-Proof.
-  intros T c k inp Hk. pose proof (to_simple cs rank T c k inp Hk) as H.
-  rewrite forallb_forall in *. intros a Ha. specialize (H a Ha). destruct a; simpl in *; try reflexivity; discriminate.
-Qed.
-
-(** the total statement: with delays sufficient on every cycle, EVERY order of considering the components ends
+(** the total statement: with stateless links and delays sufficient on every cycle, EVERY order of considering the components ends
     normally once the fuel exceeds an explicit bound, every component is at or beyond the end time, and any two
     orders end with the same update count and the same time for every component *)
 Lemma order_independent_total cs rank phi rank' endt m prio1 prio2 :
-  term_ok cs rank -> sufficient cs phi rank' -> min_start cs = Some m -> m < endt ->
+  term_ok cs rank -> stateless cs -> sufficient cs phi rank' -> min_start cs = Some m -> m < endt ->
   (forall c, (c < length cs)%nat -> In c prio1) ->
   (forall c, (c < length cs)%nat -> In c prio2) ->
   forall fuel1 fuel2, (enough_fuel cs endt <= fuel1)%nat -> (enough_fuel cs endt <= fuel2)%nat ->
@@ -89,8 +83,8 @@ Lemma order_independent_total cs rank phi rank' endt m prio1 prio2 :
       forall c, is_time cs c = true ->
         s_cnt st1 c = s_cnt st2 c /\ s_time st1 c = s_time st2 c /\ endt <= s_time st1 c.
 Proof.
-  intros T Suf Hm Hlt H1 H2 fuel1 fuel2 F1 F2.
-  pose proof (to_wf cs rank T) as W. pose proof (simple_is_stateless cs rank T) as SL.
+  intros T SL Suf Hm Hlt H1 H2 fuel1 fuel2 F1 F2.
+  pose proof (to_wf cs rank T) as W.
   assert (G : forall prio fuel, (forall c, (c < length cs)%nat -> In c prio) -> (enough_fuel cs endt <= fuel)%nat ->
               exists st acc, run_prio prio fuel cs endt = (OOk, st, acc)).
   { intros prio fuel Hp Hf. destruct (run_prio prio fuel cs endt) as [[o st] acc] eqn:R.
